@@ -67,3 +67,19 @@ func appendUniq(set []string, adds ...string) []string {
 	}
 	return set
 }
+
+// lowerASCII returns s with its ASCII upper-case letters folded and every other
+// byte left alone: host names are case-insensitive in ASCII only (RFC 4343),
+// and the name tables are keyed with lowerASCIIBytes. strings.ToLower would
+// also fold non-ASCII letters and rewrite bytes that are not valid UTF-8, so a
+// key built with it does not match a key built with lowerASCIIBytes.
+func lowerASCII(s string) string {
+	for i := 0; i < len(s); i++ {
+		if c := s[i]; 'A' <= c && c <= 'Z' {
+			b := []byte(s)
+			lowerASCIIBytes(b)
+			return string(b)
+		}
+	}
+	return s
+}
